@@ -1,10 +1,10 @@
 """treeinfo / discinfo objects and documents"""
 import copy
 import io
-from suites.common import exc_result, reflect, rstr, LOWER, DIGITS
+from suites.common import api_consistency, exc_result, reflect, rstr, LOWER, DIGITS
 
 EXC = (ValueError, TypeError, AttributeError, KeyError, IndexError)
-ARCHES = ["x86_64", "ppc64le", "aarch64", "s390x", "src"]
+ARCHES = ["x86_64", "ppc64le", "aarch64", "s390x", "src", "armhfp"]
 PATH_FIELDS = ["packages", "repository", "source_packages", "source_repository", "debug_packages", "debug_repository", "identity"]
 
 
@@ -152,6 +152,10 @@ def impl_roundtrip(case):
         return exc_result(e)
     except Exception as e:       # configparser errors
         return ["err", "Other:" + type(e).__name__]
+    if case.get("main_variant") is None:
+        api = api_consistency(ti, TI.TreeInfo, text)
+        if api:
+            return ["api-inconsistent", api]
     table = section_table(text)
     ti2 = TI.TreeInfo()
     try:
@@ -199,6 +203,9 @@ def impl_discinfo(case):
         text = o.dumps()
     except EXC as e:
         return exc_result(e)
+    api = api_consistency(o, DI.DiscInfo, text)
+    if api:
+        return ["api-inconsistent", api]
     o2 = DI.DiscInfo()
     try:
         o2.loads(text)
